@@ -45,6 +45,7 @@ type c09Case struct {
 	Text string    `json:"text,omitempty"`
 	Lab  string    `json:"label"`
 	Seq  []string  `json:"seq,omitempty"` // files kind: writes "<encoding>:<model index>"
+	Same bool      `json:"same,omitempty"` // files kind: every encoding writes to its own file (one model object, several encodings)
 }
 
 var c09Tokens = []string{"\"", "\\", "\": ", "  ", "\n", "\t", "a", "é", ",", "{", "[", ":"}
@@ -151,6 +152,21 @@ func (c09) Cases(tier string, emit func(string, interface{})) {
 		}
 		rec(nil)
 	}
+	// the same in-memory model written in several encodings one after another (each to its own file): every file
+	// must decode to the model as compiled, whatever was written before (a writer must not change its input, and
+	// must not rely on anything cached from an earlier write)
+	encs := []string{"pb", "json", "json-compact", "textpb", "textpb-compact"}
+	for _, e1 := range encs {
+		for _, e2 := range encs {
+			emit("files", c09Case{Lab: fmt.Sprintf("files-x [%s %s pb]", e1, e2), Seq: []string{e1 + ":0", e2 + ":0", "pb:0"}, Same: true})
+			emit("files", c09Case{Lab: fmt.Sprintf("files-x [%s %s textpb]", e1, e2), Seq: []string{e1 + ":2", e2 + ":2", "textpb:2"}, Same: true})
+		}
+		for _, mut := range []string{"strip", "grow"} {
+			for _, e2 := range encs {
+				emit("files", c09Case{Lab: fmt.Sprintf("files-m [%s %s %s]", e1, mut, e2), Seq: []string{e1 + ":0", mut + ":0", e2 + ":0"}, Same: true})
+			}
+		}
+	}
 }
 
 var c09FileModels = []string{
@@ -164,6 +180,9 @@ func c09RunFiles(cs c09Case) core.Outcome {
 	o.Class = "roundtrip-ok"
 	fs := afero.NewMemMapFs()
 	names := map[string]string{"pb": "out/x.pb", "json": "out/x.pb.json", "json-compact": "out/x.pb.json", "textpb": "out/x.textpb", "textpb-compact": "out/x.textpb"}
+	if cs.Same {
+		names["json-compact"], names["textpb-compact"] = "out/xc.pb.json", "out/xc.textpb"
+	}
 	var mods []*sysl.Module
 	for _, t := range c09FileModels {
 		m, err := parse.NewParser().ParseString(t)
@@ -173,11 +192,31 @@ func c09RunFiles(cs c09Case) core.Outcome {
 		}
 		mods = append(mods, m)
 	}
+	var pristine []*sysl.Module
+	for _, m := range mods {
+		pristine = append(pristine, proto.Clone(m).(*sysl.Module))
+	}
 	for step, w := range cs.Seq {
 		parts := strings.SplitN(w, ":", 2)
 		enc := parts[0]
 		var mi int
 		fmt.Sscan(parts[1], &mi)
+		if enc == "strip" || enc == "grow" {
+			// the caller changes the in-memory model between two writes (what 'sysl pb --compact' does to drop the
+			// locations, or any library user editing the module): the reference changes with it
+			if enc == "strip" {
+				clearSourceContexts(mods[mi].ProtoReflect())
+			} else {
+				for _, app := range mods[mi].GetApps() {
+					if app.Attrs == nil {
+						app.Attrs = map[string]*sysl.Attribute{}
+					}
+					app.Attrs["grown"] = &sysl.Attribute{Attribute: &sysl.Attribute_S{S: "a value that makes the message longer"}}
+				}
+			}
+			pristine[mi] = proto.Clone(mods[mi]).(*sysl.Module)
+			continue
+		}
 		m := mods[mi]
 		opt := pbutil.OutputOptions{Compact: strings.HasSuffix(enc, "compact")}
 		var err error
@@ -209,8 +248,13 @@ func c09RunFiles(cs c09Case) core.Outcome {
 		if err != nil {
 			return fail("file-decode-error|"+strings.SplitN(enc, "-", 2)[0], "the file cannot be decoded: "+err.Error())
 		}
-		if !proto.Equal(m, back) {
-			return fail("file-roundtrip-differs|"+strings.SplitN(enc, "-", 2)[0], "the file decodes to a different model than the one just written: "+protoDiff(m, back))
+		want := pristine[mi]
+		if strings.HasSuffix(enc, "compact") {
+			want = stripped(want) // the compact forms leave the locations out
+			back = stripped(back)
+		}
+		if !proto.Equal(want, back) {
+			return fail("file-roundtrip-differs|"+strings.SplitN(enc, "-", 2)[0], "the file decodes to a different model than the one compiled: "+protoDiff(want, back))
 		}
 		o.Traces++
 	}
